@@ -138,3 +138,39 @@ Proof.
   - repeat constructor.
   - eexists. split; [vm_compute; reflexivity|]. vm_compute. reflexivity.
 Qed.
+
+(* round 3: findall(T,G,L) is "collect, then match": findall(T,G,V), L = V for a new variable V (unbound, occurring
+   neither in L nor in the collected list).  The first step succeeds exactly once and binds only V; matching L against
+   V afterwards ends exactly as the direct call does (success / failure / error) with the SAME new bindings nw; the two
+   final stores differ only by the binding of the auxiliary V. *)
+Theorem C09_findall_is_collect_then_match : forall call t g l s v es b,
+  wf (sto s) -> lookup v (sto s) = None ->
+  occurs v (den (sto s) l) = false ->
+  findall_collected call t g s = Some (es, b) ->
+  occurs v (den (sto s) (mk_list es)) = false ->
+  let m := den (sto s) (mk_list es) in
+  let s1 := {| sto := (v, m) :: sto s; nxt := b |} in
+  builtin call (s_ "findall") [t; g; TVar v] s = Some ([s1], false) /\
+  match unify ufuel [] (den (sto s) l) m with
+  | UOk nw => builtin call (s_ "findall") [t; g; l] s = Some ([{| sto := nw ++ sto s; nxt := b |}], false) /\
+              unify_st s1 l (TVar v) = ([{| sto := nw ++ (v, m) :: sto s; nxt := b |}], false)
+  | UFail => builtin call (s_ "findall") [t; g; l] s = Some ([], false) /\ unify_st s1 l (TVar v) = ([], false)
+  | _ => builtin call (s_ "findall") [t; g; l] s = Some ([], true) /\ unify_st s1 l (TVar v) = ([], true)
+  end.
+Proof. exact findall_as_fresh_bag_then_unify. Qed.
+Print Assumptions C09_findall_is_collect_then_match.
+
+(* non-vacuity: the hypotheses hold for the call of bag_prog above - template X = cell 2, goal r(V,X) with V = cell 0,
+   bag [a|T] with T = cell 1, auxiliary variable cell 3, in the empty store with 4 cells allocated; the collected list is
+   [V, c] and the match binds V to a and T to [c] *)
+Example C09_collect_then_match_nonvacuous :
+  let call := query 9 (match compile_program bag_prog with Some ir => ir | None => [] end) in
+  let s := {| sto := []; nxt := 4 |} in
+  let g := TFun (d "r") [TVar 0; TVar 2] in
+  let l := cons_term (TAtom (d "a")) (TVar 1) in
+  findall_collected call (TVar 2) g s = Some ([TVar 0; TAtom (d "c")], 4) /\
+  wf (sto s) /\ lookup 3 (sto s) = None /\ occurs 3 (den (sto s) l) = false /\
+  occurs 3 (den (sto s) (mk_list [TVar 0; TAtom (d "c")])) = false /\
+  unify ufuel [] (den (sto s) l) (den (sto s) (mk_list [TVar 0; TAtom (d "c")])) =
+    UOk [(1, mk_list [TAtom (d "c")]); (0, TAtom (d "a"))].
+Proof. vm_compute. repeat split; constructor. Qed.
